@@ -114,3 +114,49 @@ def may_alias(flow, expr, roots, _seen=None, _elem=False):
     if isinstance(expr, ast.Call) and isinstance(expr.func, ast.Attribute) and expr.func.attr in ('get', 'setdefault', 'pop'):
         return may_alias(flow, expr.func.value, roots, _seen, True)      # an entry of the receiver
     return False
+
+
+def stale_after_swap(funcnode, cfg):
+    """After `a, b = b, a` the expressions a and b were bound to name the *other* operand.  Returns
+    [(swap stmt, stale use node, text)] for uses, reachable from the swap, of an expression that one of the
+    swapped names was defined as (`lhs, rhs = fm.arg1, fm.arg` ... swap ... `fm.arg1`)."""
+    out = []
+    stmts = [n for n in cfg.nodes if n.kind == 'stmt' and isinstance(n.ast, ast.Assign)]
+    for s in stmts:
+        a = s.ast
+        if not (isinstance(a.targets[0], ast.Tuple) and isinstance(a.value, ast.Tuple) and len(a.targets[0].elts) == 2 and len(a.value.elts) == 2):
+            continue
+        t1, t2 = a.targets[0].elts
+        v1, v2 = a.value.elts
+        if not (all(isinstance(x, ast.Name) for x in (t1, t2, v1, v2)) and t1.id == v2.id and t2.id == v1.id):
+            continue
+        names = (t1.id, t2.id)
+        # what the two names were bound to before
+        origin = {}
+        defining = set()
+        for d in stmts:
+            if d is s:
+                continue
+            da = d.ast
+            if isinstance(da.targets[0], ast.Tuple) and isinstance(da.value, ast.Tuple) and len(da.targets[0].elts) == len(da.value.elts):
+                for t, v in zip(da.targets[0].elts, da.value.elts):
+                    if isinstance(t, ast.Name) and t.id in names and not isinstance(v, (ast.Name, ast.Constant)):
+                        origin[src(v, 200)] = t.id
+                        defining.add(d.id)
+            elif isinstance(da.targets[0], ast.Name) and da.targets[0].id in names and not isinstance(da.value, (ast.Name, ast.Constant)):
+                origin[src(da.value, 200)] = da.targets[0].id
+                defining.add(d.id)
+        if not origin:
+            continue
+        reach = cfg.reach_from([b for b, _l in s.succ], skip_nodes=[n for n in cfg.nodes if n.id in defining])
+        for n in cfg.nodes:
+            if n.id not in reach or n is s or n.id in defining:
+                continue
+            for h in cfg.headers(n):
+                # the re-definition itself is not a use
+                if n.kind == 'stmt' and isinstance(n.ast, ast.Assign) and src(n.ast.value, 200) in origin:
+                    continue
+                for x in ast.walk(h):
+                    if isinstance(x, (ast.Attribute, ast.Subscript, ast.Call)) and src(x, 200) in origin:
+                        out.append((s, n, src(x, 200), origin[src(x, 200)]))
+    return out
